@@ -1,16 +1,21 @@
 """Model of the numpy surface used by panoptica (trusted contracts; every
 entry is listed in the evidence and conformance-tested against the installed
-numpy by replay/np_conformance.py).
+numpy 1.26.4 by replay/npconf.py).
 
 Voxel-set theory: an array is a per-voxel z3 term over base arrays evaluated
-at one generic voxel constant of its index space."""
+at the generic voxel constant of its index space.  Cardinalities (np.sum of
+masks) are integer constants whose meaning is given by Venn-region axioms
+generated when an obligation is emitted (venn_axioms)."""
 from __future__ import annotations
+import itertools
 import z3
 from .values import *
+from . import values as _values
 from .objects import *
 from .interp import PyRaise
 
 Vox = z3.DeclareSort("Vox")
+I_, R_, B_ = z3.IntSort(), z3.RealSort(), z3.BoolSort()
 
 UINT_BITS = {"uint8": 8, "uint16": 16, "uint32": 32, "uint64": 64}
 INT_BITS = {"int8": 8, "int16": 16, "int32": 32, "int64": 64}
@@ -27,40 +32,12 @@ def dtype_range(dt):
     return None
 
 
-class DType:
-    """np.uint8 etc. (scalar type objects)."""
-
-    def __init__(self, name):
-        self.name = name
-
-    def __repr__(self):
-        return f"np.{self.name}"
-
-    def __eq__(self, o):
-        return isinstance(o, DType) and o.name == self.name
-
-    def __hash__(self):
-        return hash(self.name)
-
-    def __call__(self, v=0):
-        return np_scalar(v, self.name)
-
-    def pyvc_isinstance(self, v):
-        if isinstance(v, Sym) and v.np:
-            return getattr(v, "dtype", None) == self.name
-        return False
-
-
-class AbstractDType(DType):
-    """np.integer / np.unsignedinteger / np.floating ..."""
-
-    def __init__(self, name, pred):
-        super().__init__(name)
-        self.pred = pred
+def is_int_dtype(dt):
+    return dt in UINT_BITS or dt in INT_BITS
 
 
 def wrap_mod(t, dt):
-    """Value of mathematical int t after conversion to integer dtype dt."""
+    """Value of the mathematical integer t after conversion to integer dtype dt."""
     r = dtype_range(dt)
     if r is None or dt == "bool":
         return t
@@ -71,128 +48,656 @@ def wrap_mod(t, dt):
     return ((t - lo) % n) + lo
 
 
+class DType:
+    """np.uint8 etc. (scalar type objects / dtypes)."""
+
+    def __init__(self, name):
+        self.name = name
+
+    def __repr__(self):
+        return f"np.{self.name}"
+
+    def __eq__(self, o):
+        return isinstance(o, DType) and o.name == self.name
+
+    def __ne__(self, o):
+        return not self.__eq__(o)
+
+    def __hash__(self):
+        return hash(self.name)
+
+    def __call__(self, v=0):
+        return np_scalar(v, self.name)
+
+    def pyvc_isinstance(self, v):
+        return isinstance(v, Sym) and v.dtype == self.name
+
+    def pyvc_str(self):
+        return self.name
+
+    @property
+    def __name__(self):
+        return self.name
+
+
+class AbstractDType(DType):
+    """np.integer / np.unsignedinteger / np.floating ..."""
+
+    def __init__(self, name, pred):
+        super().__init__(name)
+        self.pred = pred
+
+    def pyvc_isinstance(self, v):
+        return isinstance(v, Sym) and v.dtype is not None and self.pred(v.dtype)
+
+
 def np_scalar(v, dt):
-    if isinstance(v, (int, bool)) and not isinstance(v, Sym):
-        t = z3.IntVal(int(v))
-    else:
-        t = to_term(v)
+    t = z3.IntVal(int(v)) if isinstance(v, (int, bool)) and not isinstance(v, Sym) else to_term(v)
     if dt.startswith("float"):
-        s = SymReal(to_term(wrap(t), "real"), np=True)
-    else:
-        s = SymInt(z3.simplify(wrap_mod(t, dt)), np=True)
-    return s
+        return SymReal(z3.simplify(to_term(wrap(t), "real")), True, dt)
+    if z3.is_real(t):
+        t = z3.ToInt(t)
+    return SymInt(z3.simplify(wrap_mod(t, dt)), True, dt)
 
 
+def _scalar_result_dtype(da, db, a, b):
+    """numpy 1.26 (legacy promotion) for scalar (op) scalar."""
+    def cat(d, x):
+        if d is not None:
+            return d
+        if isinstance(x, bool):
+            return "bool"
+        if isinstance(x, float) or isinstance(x, SymReal):
+            return "float64"
+        return "int64"  # python int behaves as a C long
+    a_, b_ = cat(da, a), cat(db, b)
+    if a_ == b_:
+        return a_
+    if a_.startswith("float") or b_.startswith("float"):
+        return "float64"
+    if a_ == "bool":
+        return b_
+    if b_ == "bool":
+        return a_
+    ua, ub = a_ in UINT_BITS, b_ in UINT_BITS
+    if ua and ub:
+        return a_ if UINT_BITS[a_] >= UINT_BITS[b_] else b_
+    if not ua and not ub:
+        return a_ if INT_BITS[a_] >= INT_BITS[b_] else b_
+    u, s = (a_, b_) if ua else (b_, a_)
+    if UINT_BITS[u] < INT_BITS[s]:
+        return s
+    nxt = {8: "int16", 16: "int32", 32: "int64"}.get(UINT_BITS[u])
+    return nxt if nxt else "float64"  # uint64 with a signed integer -> float64
+
+
+def _scalar_hook(a, b, ta, tb, da, db, f):
+    rd = _scalar_result_dtype(da, db, a, b)
+    if rd.startswith("float"):
+        if z3.is_int(ta):
+            ta = z3.ToReal(ta)
+        if z3.is_int(tb):
+            tb = z3.ToReal(tb)
+        return SymReal(z3.simplify(f(ta, tb)), True, rd)
+    r = f(ta, tb)
+    if z3.is_real(r):
+        return SymReal(z3.simplify(r), True, "float64")
+    return SymInt(z3.simplify(wrap_mod(r, rd)), True, rd)
+
+
+_values._SCALAR_HOOK[0] = _scalar_hook
+
+
+# ---------------------------------------------------------------------------
 class Space:
-    """An index space (shape) with its generic voxel."""
+    """An index space (array shape) with its generic voxel."""
     _n = [0]
 
     def __init__(self, name=None, ndim=None):
         Space._n[0] += 1
         self.name = name or f"S{Space._n[0]}"
         self.x = z3.Const(f"vox_{self.name}", Vox)
-        self.ndim = ndim
+        self.ndim = ndim  # int or SymInt
         self.size = z3.Int(f"size_{self.name}")
+        self.shape = ShapeTok(self)
 
 
+class ShapeTok:
+    def __init__(self, space):
+        self.space = space
+
+    def __eq__(self, o):
+        return isinstance(o, ShapeTok) and o.space is self.space
+
+    def __ne__(self, o):
+        return not self.__eq__(o)
+
+    def __hash__(self):
+        return id(self.space)
+
+    def pyvc_str(self):
+        return f"<shape {self.space.name}>"
+
+
+CARDS = {}  # const name -> (kind, term, space)   kind: 'card' (bool term) | 'sum' (int term)
+_card_n = [0]
+
+
+def card(phi, space):
+    """|{x : phi(x)}| as an Int constant (meaning: venn_axioms)."""
+    phi = z3.simplify(phi)
+    for nm, (k, t, sp) in CARDS.items():
+        if k == "card" and sp is space and t.eq(phi):
+            return z3.Int(nm)
+    _card_n[0] += 1
+    nm = f"card!{_card_n[0]}"
+    CARDS[nm] = ("card", phi, space)
+    return z3.Int(nm)
+
+
+def vsum(term, space):
+    term = z3.simplify(term)
+    for nm, (k, t, sp) in CARDS.items():
+        if k == "sum" and sp is space and t.eq(term):
+            return z3.Int(nm)
+    _card_n[0] += 1
+    nm = f"vsum!{_card_n[0]}"
+    CARDS[nm] = ("sum", term, space)
+    return z3.Int(nm)
+
+
+def _atoms(t, out):
+    """maximal non-propositional boolean subterms."""
+    if z3.is_bool(t) and z3.is_app(t):
+        k = t.decl().kind()
+        if k in (z3.Z3_OP_AND, z3.Z3_OP_OR, z3.Z3_OP_NOT, z3.Z3_OP_IMPLIES, z3.Z3_OP_XOR) or (
+            k in (z3.Z3_OP_EQ, z3.Z3_OP_IFF, z3.Z3_OP_ITE) and all(z3.is_bool(c) for c in t.children())
+        ):
+            for c in t.children():
+                _atoms(c, out)
+            return
+        if k in (z3.Z3_OP_TRUE, z3.Z3_OP_FALSE):
+            return
+        if not any(t.eq(a) for a in out):
+            out.append(t)
+        return
+    if z3.is_app(t):
+        # integer term: atoms are the conditions of its if-then-elses
+        if t.decl().kind() == z3.Z3_OP_ITE:
+            _atoms(t.arg(0), out)
+            _atoms(t.arg(1), out)
+            _atoms(t.arg(2), out)
+        else:
+            for c in t.children():
+                if z3.is_app(c) and _contains_ite(c):
+                    _atoms(c, out)
+
+
+def _contains_ite(t):
+    if z3.is_app(t):
+        if t.decl().kind() == z3.Z3_OP_ITE:
+            return True
+        return any(_contains_ite(c) for c in t.children())
+    return False
+
+
+def used_cards(exprs):
+    names = set()
+
+    def walk(t, seen):
+        if t.get_id() in seen:
+            return
+        seen.add(t.get_id())
+        if z3.is_const(t) and t.decl().kind() == z3.Z3_OP_UNINTERPRETED:
+            n = t.decl().name()
+            if n in CARDS:
+                names.add(n)
+        elif z3.is_app(t):
+            for c in t.children():
+                walk(c, seen)
+        elif z3.is_quantifier(t):
+            walk(t.body(), seen)
+    seen = set()
+    for e in exprs:
+        walk(e, seen)
+    return sorted(names)
+
+
+def venn_axioms(names, max_atoms=7):
+    """BAPA-style reduction: for the cardinality constants `names`, introduce
+    one non-negative region size per truth assignment of the atoms of their
+    formulas (per index space); a region may be non-empty only if a witness
+    voxel realises it (theory consistency of the atoms)."""
+    out = []
+    by_space = {}
+    for n in names:
+        k, t, sp = CARDS[n]
+        by_space.setdefault(id(sp), (sp, []))[1].append((n, k, t))
+    for sp, items in by_space.values():
+        atoms = []
+        for n, k, t in items:
+            _atoms(t, atoms)
+        if len(atoms) > max_atoms:
+            raise Unsupported(f"{len(atoms)} atoms in one Venn diagram")
+        regions = []
+        key = abs(hash(tuple(n for n, _, _ in items))) % 10 ** 6
+        for bits in itertools.product([True, False], repeat=len(atoms)):
+            tag = "".join("1" if b else "0" for b in bits)
+            nv = z3.Int(f"region!{sp.name}!{tag}!{key}")
+            w = z3.Const(f"wit!{sp.name}!{tag}!{key}", Vox)
+            lits = [a if b else z3.Not(a) for a, b in zip(atoms, bits)]
+            real = z3.substitute(z3.And(*lits) if lits else z3.BoolVal(True), (sp.x, w))
+            out.append(nv >= 0)
+            out.append(z3.Implies(nv > 0, real))
+            regions.append((bits, nv))
+        subs_for = lambda bits: [(a, z3.BoolVal(b)) for a, b in zip(atoms, bits)]
+        for n, k, t in items:
+            terms = []
+            for bits, nv in regions:
+                v = z3.simplify(z3.substitute(t, *subs_for(bits))) if atoms else z3.simplify(t)
+                if k == "card":
+                    if z3.is_true(v):
+                        terms.append(nv)
+                    elif not z3.is_false(v):
+                        raise Unsupported(f"cardinality formula not propositional over its atoms: {v}")
+                else:
+                    if not z3.is_int_value(v):
+                        v = _region_constant(t, atoms, bits)
+                    if v is None:
+                        continue  # region is theory-inconsistent: it is empty
+                    if z3.is_int_value(v):
+                        if v.as_long() != 0:
+                            terms.append(v.as_long() * nv)
+                    else:
+                        raise Unsupported(f"np.sum of a non-mask integer array (value {v} is not constant on a Venn region)")
+            out.append(z3.Int(n) == (z3.Sum(terms) if terms else z3.IntVal(0)))
+        out.append(sp.size == z3.Sum([nv for _, nv in regions]))
+        out.append(sp.size >= 0)
+        out.append(sp.size <= 2 ** 40)  # assumption A-SIZE: arrays have at most 2^40 elements (no int64 overflow in sums)
+    return out
+
+
+def _region_constant(t, atoms, bits):
+    """value of integer term t on the region given by the atom literals, if it is constant there"""
+    s = z3.Solver()
+    s.set("timeout", 2000)
+    for a, b in zip(atoms, bits):
+        s.add(a if b else z3.Not(a))
+    r = s.check()
+    if r == z3.unsat:
+        return None
+    if r != z3.sat:
+        return t
+    k = s.model().eval(t, model_completion=True)
+    s.add(t != k)
+    if s.check() == z3.unsat:
+        return k
+    return t
+
+
+# ---------------------------------------------------------------------------
 class VArr:
     _buf = [0]
 
-    def __init__(self, term, dtype, space, buf=None, writable=True, owner=None):
+    def __init__(self, term, dtype, space, buf=None, owner=None, base=None):
         self.term = term
-        self.dtype = dtype
+        self.dtype_name = dtype
         self.space = space
         if buf is None:
             VArr._buf[0] += 1
             buf = VArr._buf[0]
         self.buf = buf
         self.owner = owner  # 'caller' for input buffers
+        self.base = base
+
+    # numpy attributes -------------------------------------------------------
+    @property
+    def dtype(self):
+        return DType(self.dtype_name)
+
+    @property
+    def shape(self):
+        return self.space.shape
+
+    @property
+    def ndim(self):
+        if self.space.ndim is None:
+            raise Unsupported("ndim of an array of unknown dimensionality")
+        return self.space.ndim
+
+    @property
+    def size(self):
+        return wrap(self.space.size)
 
     def __repr__(self):
-        return f"VArr<{self.dtype},{self.space.name},buf{self.buf}>"
-
-    def at(self, w):
-        return z3.substitute(self.term, (self.space.x, w))
+        return f"VArr<{self.dtype_name},{self.space.name},buf{self.buf}>"
 
     def __bool__(self):
         raise Unsupported("truth value of an array")
 
+    def at(self, w):
+        return z3.substitute(self.term, (self.space.x, w))
 
-def base_array(eng, name, dtype, space, owner="caller"):
-    """A symbolic input array: uninterpreted function Vox->Int with a range
-    axiom for its dtype (assumed; added to the path condition)."""
-    srt = z3.RealSort() if dtype.startswith("float") else (z3.BoolSort() if dtype == "bool" else z3.IntSort())
+    def new(self, term, dtype):
+        return VArr(z3.simplify(term), dtype, self.space)
+
+    def copy(self):
+        cur().event("arr-copy", self.buf)
+        return VArr(self.term, self.dtype_name, self.space)
+
+    def astype(self, dt, **k):
+        dt = _dtype_name(dt)
+        cur().event("arr-astype", self.buf, dt)
+        return VArr(z3.simplify(_cast_term(self.term, self.dtype_name, dt)), dt, self.space)
+
+    def nonzero_term(self):
+        t = self.term
+        if z3.is_bool(t):
+            return t
+        return t != 0
+
+    # comparisons --------------------------------------------------------------
+    def _cmp(self, o, f):
+        if isinstance(o, VArr):
+            _same_space(self, o)
+            a, b = _num_terms(self.term, o.term)
+            return self.new(f(a, b), "bool")
+        if o is None:
+            return self.new(z3.BoolVal(f is not _EQ), "bool")
+        a, b = _num_terms(self.term, to_term(o))
+        return self.new(f(a, b), "bool")
+
+    def elementwise_eq(self, o):
+        return self._cmp(o, _EQ)
+
+    def __eq__(self, o):
+        return self._cmp(o, _EQ)
+
+    def __ne__(self, o):
+        return self._cmp(o, lambda a, b: a != b)
+
+    def __lt__(self, o):
+        return self._cmp(o, lambda a, b: a < b)
+
+    def __le__(self, o):
+        return self._cmp(o, lambda a, b: a <= b)
+
+    def __gt__(self, o):
+        return self._cmp(o, lambda a, b: a > b)
+
+    def __ge__(self, o):
+        return self._cmp(o, lambda a, b: a >= b)
+
+    __hash__ = object.__hash__
+
+    def logical_not(self):
+        return self.new(z3.Not(self.nonzero_term()), "bool")
+
+    def __invert__(self):
+        if self.dtype_name != "bool":
+            raise Unsupported("~ on a non-boolean array")
+        return self.new(z3.Not(self.term), "bool")
+
+    def __and__(self, o):
+        return _boolop(self, o, z3.And)
+
+    def __or__(self, o):
+        return _boolop(self, o, z3.Or)
+
+    def __xor__(self, o):
+        return _boolop(self, o, z3.Xor)
+
+    # arithmetic -----------------------------------------------------------------
+    def _arith(self, o, f, rev=False, opname="+"):
+        eng = cur()
+        if isinstance(o, VArr):
+            _same_space(self, o)
+            rd = _array_array_dtype(self.dtype_name, o.dtype_name)
+            a, b = (o, self) if rev else (self, o)
+            return VArr(z3.simplify(_apply(f, a.term, a.dtype_name, b.term, b.dtype_name, rd, opname)), rd, self.space)
+        if not isinstance(o, (int, float, bool, Sym)):
+            return NotImplemented
+        rd = _array_scalar_dtype(eng, self.dtype_name, o)
+        ot = to_term(o)
+        od = getattr(o, "dtype", None) or ("float64" if z3.is_real(ot) else "int64")
+        if rev:
+            t = _apply(f, ot, od, self.term, self.dtype_name, rd, opname)
+        else:
+            t = _apply(f, self.term, self.dtype_name, ot, od, rd, opname)
+        return VArr(z3.simplify(t), rd, self.space)
+
+    def __add__(self, o):
+        return self._arith(o, lambda a, b: a + b, opname="+")
+
+    def __radd__(self, o):
+        return self._arith(o, lambda a, b: a + b, True, opname="+")
+
+    def __sub__(self, o):
+        return self._arith(o, lambda a, b: a - b, opname="-")
+
+    def __mul__(self, o):
+        return self._arith(o, lambda a, b: a * b, opname="*")
+
+    def __rmul__(self, o):
+        return self._arith(o, lambda a, b: a * b, True, opname="*")
+
+    def inplace_op(self, op, o):
+        """a += o etc.: the result is cast back into a's own dtype (same_kind)."""
+        import ast
+        f = {ast.Add: lambda a, b: a + b, ast.Sub: lambda a, b: a - b, ast.Mult: lambda a, b: a * b}.get(op)
+        if f is None:
+            raise Unsupported("in-place array operator")
+        r = self._arith(o, f, opname={ast.Add: "+", ast.Sub: "-", ast.Mult: "*"}[op])
+        cur().event("arr-write", self.buf, self.owner)
+        self.term = z3.simplify(_cast_term(r.term, r.dtype_name, self.dtype_name))
+        return self
+
+    # reductions --------------------------------------------------------------------
+    def sum(self, *a, **k):
+        if a or k:
+            raise Unsupported("sum with axis")
+        if self.dtype_name == "bool":
+            return SymInt(card(self.term, self.space), True, "int64")
+        if is_int_dtype(self.dtype_name):
+            acc = "uint64" if self.dtype_name in UINT_BITS else "int64"
+            return SymInt(vsum(self.term, self.space), True, acc)
+        raise Unsupported("sum of float array")
+
+    def max(self, *a, **k):
+        if a or k:
+            raise Unsupported("max with axis")
+        eng = cur()
+        if not eng.truth(wrap(self.space.size > 0)):
+            raise PyRaise(PyExc(ValueError, ("zero-size array to reduction operation maximum which has no identity",)))
+        mx = eng.fresh("amax", R_ if z3.is_real(self.term) else I_)
+        w = eng.fresh("amax_w", Vox)
+        v = z3.Const(f"v_amax{eng.fresh_n}", Vox)
+        tt = z3.If(self.term, z3.IntVal(1), z3.IntVal(0)) if z3.is_bool(self.term) else self.term
+        at = lambda q: z3.substitute(tt, (self.space.x, q))
+        eng.assume(z3.And(at(w) == mx, z3.ForAll([v], at(v) <= mx)), why="np.ndarray.max")
+        return wrap(mx, True, self.dtype_name)
+
+    def any(self):
+        return wrap(card(self.nonzero_term(), self.space) > 0)
+
+    # indexing -------------------------------------------------------------------------
+    def pyvc_setitem(self, k, v):
+        eng = cur()
+        if isinstance(k, VArr) and k.dtype_name == "bool":
+            _same_space(self, k)
+            if isinstance(v, VArr):
+                raise Unsupported("masked assignment of an array")
+            vt = _cast_scalar(v, self.dtype_name)
+            eng.event("arr-write", self.buf, self.owner)
+            self.term = z3.simplify(z3.If(k.term, vt, self.term))
+            return
+        raise Unsupported(f"array item assignment with index {k!r}")
+
+    def pyvc_getitem(self, k):
+        if isinstance(k, VArr) and k.dtype_name == "bool":
+            _same_space(self, k)
+            return VSel(self, k.term)
+        if hasattr(k, "crop_of"):
+            return k.crop_of(self)
+        raise Unsupported(f"array indexing with {k!r}")
+
+
+class VSel:
+    """arr[mask]: the 1-D selection of the values at the voxels where mask holds."""
+
+    def __init__(self, arr, cond):
+        self.arr = arr
+        self.cond = cond
+
+
+def _EQ(a, b):
+    return a == b
+
+
+def _num_terms(a, b):
+    if z3.is_bool(a) and not z3.is_bool(b):
+        a = z3.If(a, z3.IntVal(1), z3.IntVal(0))
+    if z3.is_bool(b) and not z3.is_bool(a):
+        b = z3.If(b, z3.IntVal(1), z3.IntVal(0))
+    if z3.is_real(a) and z3.is_int(b):
+        b = z3.ToReal(b)
+    if z3.is_real(b) and z3.is_int(a):
+        a = z3.ToReal(a)
+    return a, b
+
+
+def _same_space(a, b):
+    if a.space is not b.space:
+        raise PyRaise(PyExc(ValueError, ("operands could not be broadcast together",)))
+
+
+def _boolop(a, o, f):
+    if not isinstance(o, VArr) or a.dtype_name != "bool" or o.dtype_name != "bool":
+        raise Unsupported("bitwise operator on non-boolean arrays")
+    _same_space(a, o)
+    return a.new(f(a.term, o.term), "bool")
+
+
+def _dtype_name(dt):
+    if isinstance(dt, DType):
+        return dt.name
+    if isinstance(dt, str):
+        return dt
+    nm = getattr(dt, "__name__", None)
+    if dt is bool or nm == "py_bool":
+        return "bool"
+    if dt is int or nm == "py_int":
+        return "int64"
+    if dt is float or nm == "py_float":
+        return "float64"
+    raise Unsupported(f"dtype {dt!r}")
+
+
+def _cast_term(t, src, dst):
+    if dst == "bool":
+        return t if z3.is_bool(t) else (t != 0)
+    if z3.is_bool(t):
+        t = z3.If(t, z3.IntVal(1), z3.IntVal(0))
+    if dst.startswith("float"):
+        return z3.ToReal(t) if z3.is_int(t) else t
+    if z3.is_real(t):
+        t = z3.ToInt(t)
+    if src == dst:
+        return t
+    r_src, r_dst = dtype_range(src), dtype_range(dst)
+    if r_src and r_dst and r_dst[0] <= r_src[0] and r_src[1] <= r_dst[1]:
+        return t  # widening: value preserved
+    return wrap_mod(t, dst)
+
+
+def _cast_scalar(v, dst):
+    t = to_term(v)
+    return _cast_term(t, getattr(v, "dtype", None) or ("float64" if z3.is_real(t) else ("bool" if z3.is_bool(t) else "int64")), dst)
+
+
+_UORD = ["uint8", "uint16", "uint32", "uint64"]
+_IORD = ["int8", "int16", "int32", "int64"]
+
+
+def _array_array_dtype(a, b):
+    if a == b:
+        return a
+    if a == "bool":
+        return b
+    if b == "bool":
+        return a
+    return _scalar_result_dtype(a, b, None, None)
+
+
+def _array_scalar_dtype(eng, ad, s):
+    """numpy 1.26 legacy value-based casting for array (op) scalar."""
+    st = to_term(s)
+    if z3.is_real(st) or (getattr(s, "dtype", None) or "").startswith("float"):
+        return "float64" if not ad.startswith("float") else ad
+    if ad.startswith("float") or z3.is_bool(st):
+        return ad
+    v = wrap(st)
+    if eng.truth(v < 0):
+        need = {"uint8": 1, "uint16": 2, "uint32": 3, "uint64": 4, "bool": 0}.get(ad)
+        if need is None:
+            need = _IORD.index(ad)
+        for i, dt in enumerate(_IORD):
+            if i >= need and eng.truth(v >= dtype_range(dt)[0]):
+                return dt
+        return "float64"
+    if ad in UINT_BITS or ad == "bool":
+        start = _UORD.index(ad) if ad in UINT_BITS else 0
+        for dt in _UORD[start:]:
+            if eng.truth(v <= dtype_range(dt)[1]):
+                return dt
+        return "float64"
+    for dt in _IORD[_IORD.index(ad):]:
+        if eng.truth(v <= dtype_range(dt)[1]):
+            return dt
+    return "float64"
+
+
+def _apply(f, ta, da, tb, db, rd, opname):
+    if rd == "bool":
+        a = ta if z3.is_bool(ta) else (ta != 0)
+        b = tb if z3.is_bool(tb) else (tb != 0)
+        if opname == "+":
+            return z3.Or(a, b)  # numpy: bool + bool is logical or
+        if opname == "*":
+            return z3.And(a, b)
+        raise Unsupported("boolean subtract")
+    if z3.is_bool(ta):
+        ta = z3.If(ta, z3.IntVal(1), z3.IntVal(0))
+    if z3.is_bool(tb):
+        tb = z3.If(tb, z3.IntVal(1), z3.IntVal(0))
+    if rd.startswith("float"):
+        ta = z3.ToReal(ta) if z3.is_int(ta) else ta
+        tb = z3.ToReal(tb) if z3.is_int(tb) else tb
+        return f(ta, tb)
+    # operands are converted to the result dtype, then combined modulo its width
+    return wrap_mod(f(_cast_term(ta, da, rd), _cast_term(tb, db, rd)), rd)
+
+
+def base_array(eng, name, dtype, space, owner="caller", binary=False):
+    """A symbolic input array: uninterpreted function Vox->Int with a range axiom for its dtype (assumed).
+    binary=True: a 0/1 mask stored in an integer dtype."""
+    if dtype == "bool" or binary:
+        f = z3.Function(name, Vox, B_)
+        t = f(space.x) if dtype == "bool" else z3.If(f(space.x), z3.IntVal(1), z3.IntVal(0))
+        return VArr(t, dtype, space, owner=owner, base=f)
+    srt = R_ if dtype.startswith("float") else I_
     f = z3.Function(name, Vox, srt)
     r = dtype_range(dtype)
-    if r is not None and dtype != "bool":
+    if r is not None:
         v = z3.Const(f"v_{name}", Vox)
-        eng.assume(wrap(z3.ForAll([v], z3.And(f(v) >= r[0], f(v) <= r[1]), patterns=[f(v)])))
-    a = VArr(f(space.x), dtype, space, owner=owner)
-    a.base = f
-    return a
-
-
-class NpModule:
-    """Stands for the numpy module inside interpreted code."""
-
-    def __init__(self, eng):
-        self.eng = eng
-        for n in list(UINT_BITS) + list(INT_BITS) + ["float64", "float32", "bool_"]:
-            setattr(self, n, DType(n if n != "bool_" else "bool"))
-        self.integer = AbstractDType("integer", lambda d: d in UINT_BITS or d in INT_BITS)
-        self.unsignedinteger = AbstractDType("unsignedinteger", lambda d: d in UINT_BITS)
-        self.signedinteger = AbstractDType("signedinteger", lambda d: d in INT_BITS)
-        self.floating = AbstractDType("floating", lambda d: d.startswith("float"))
-        self.inf = float("inf")
-        self.nan = float("nan")
-        self.ndarray = _NDArrayType()
-
-    # ---- boolean reductions on python lists
-    def all(self, v, **k):
-        if isinstance(v, VArr):
-            raise Unsupported("np.all on array")
-        items = self.eng.iterate(v)
-        rs = []
-        for x in items:
-            if isinstance(x, bool):
-                if not x:
-                    return False
-            elif isinstance(x, SymBool):
-                rs.append(x)
-            else:
-                raise Unsupported("np.all of non-bool list")
-        return sym_and(*rs) if rs else True
-
-    def isnan(self, v):
-        if isinstance(v, float):
-            return v != v
-        if isinstance(v, (int, Sym)):
-            return False
-        if v is None:
-            raise PyRaise(PyExc(TypeError, ("isnan(None)",)))
-        raise Unsupported("np.isnan")
-
-
-class _NDArrayType:
-    def pyvc_isinstance(self, v):
-        return isinstance(v, VArr)
-
-
-def install(eng):
-    np = NpModule(eng)
-    eng.models["numpy"] = np
-    eng.np = np
-    return np
+        eng.assume(z3.ForAll([v], z3.And(f(v) >= r[0], f(v) <= r[1]), patterns=[f(v)]), why=f"dtype range of {name}")
+    return VArr(f(space.x), dtype, space, owner=owner, base=f)
 
 
 # ---------------------------------------------------------------------------
-# aggregates over python lists / symbolic sequences of numbers (trusted
-# contracts of np.average / np.std / np.sum / np.min / np.max on 1-D input):
-# uninterpreted functions of (elements, length); arithmetic facts about them
-# are added only by the lemma units that prove them by induction.
-_AR = z3.ArraySort(z3.IntSort(), z3.RealSort())
-AGG = {nm: z3.Function("np_" + nm, _AR, z3.IntSort(), z3.RealSort())
-       for nm in ("average", "pstd", "sstd", "sum", "min", "max")}
+# aggregates over python lists / symbolic sequences of numbers
+_AR = z3.ArraySort(I_, R_)
+AGG = {nm: z3.Function("np_" + nm, _AR, I_, R_) for nm in ("average", "pstd", "sstd", "sum", "min", "max")}
 
 
 def seq_array(eng, v):
@@ -206,12 +711,11 @@ def seq_array(eng, v):
             return tt.arg(0), to_term(v.length)
         return z3.Lambda([v.i0], tt), to_term(v.length)
     if isinstance(v, SymList):
-        arr = v.arr
-        if arr.range() != z3.RealSort():
+        if v.arr.range() != R_:
             raise Unsupported("aggregate over int SymList")
-        return arr, v.length
+        return v.arr, v.length
     if isinstance(v, (list, tuple)):
-        arr = z3.K(z3.IntSort(), z3.RealVal(0))
+        arr = z3.K(I_, z3.RealVal(0))
         for i, x in enumerate(v):
             if isinstance(x, float) and (x != x or x in (float("inf"), float("-inf"))):
                 raise Unsupported("non-finite element in aggregate")
@@ -220,46 +724,229 @@ def seq_array(eng, v):
     raise Unsupported(f"aggregate over {type(v).__name__}")
 
 
-def _agg(name):
-    def f(self, v, *a, **k):
+class NpModule:
+    """Stands for the numpy module inside interpreted code."""
+
+    def __init__(self, eng):
+        self.eng = eng
+        for n in list(UINT_BITS) + list(INT_BITS) + ["float64", "float32"]:
+            setattr(self, n, DType(n))
+        self.bool_ = DType("bool")
+        self.integer = AbstractDType("integer", is_int_dtype)
+        self.unsignedinteger = AbstractDType("unsignedinteger", lambda d: d in UINT_BITS)
+        self.signedinteger = AbstractDType("signedinteger", lambda d: d in INT_BITS)
+        self.floating = AbstractDType("floating", lambda d: d.startswith("float"))
+        self.inf = float("inf")
+        self.nan = float("nan")
+        self.ndarray = _NDArrayType()
+
+    def issubdtype(self, d, T):
+        dn = _dtype_name(d)
+        if isinstance(T, AbstractDType):
+            return T.pred(dn)
+        if getattr(T, "__name__", "") == "py_int" or T is int:
+            return dn in INT_BITS
+        return dn == _dtype_name(T)
+
+    def all(self, v, **k):
         if isinstance(v, VArr):
-            return getattr(self, "arr_" + name)(v, *a, **k)
-        eng = self.eng
-        if isinstance(v, (list, tuple)) and len(v) == 0:
+            return wrap(card(z3.Not(v.nonzero_term()), v.space) == 0)
+        rs = []
+        for x in self.eng.iterate(v):
+            if isinstance(x, bool):
+                if not x:
+                    return False
+            elif isinstance(x, SymBool):
+                rs.append(x)
+            else:
+                raise Unsupported("np.all of non-bool list")
+        return sym_and(*rs) if rs else True
+
+    def any(self, a=None, axis=None, **k):
+        if a is None:
+            a = k.get("a")
+        if isinstance(a, VArr):
+            if axis is not None:
+                raise Unsupported("np.any with axis (geometry)")
+            return a.any()
+        for x in self.eng.iterate(a):
+            if self.eng.truth(x):
+                return True
+        return False
+
+    def count_nonzero(self, a):
+        if isinstance(a, VArr):
+            return SymInt(card(a.nonzero_term(), a.space), True, "int64")
+        raise Unsupported("count_nonzero")
+
+    def isnan(self, v):
+        if isinstance(v, float):
+            return v != v
+        if isinstance(v, (int, Sym)):
+            return False
+        if v is None:
+            raise PyRaise(PyExc(TypeError, ("isnan(None)",)))
+        raise Unsupported("np.isnan")
+
+    def logical_and(self, a, b):
+        _same_space(a, b)
+        return a.new(z3.And(a.nonzero_term(), b.nonzero_term()), "bool")
+
+    def logical_or(self, a, b):
+        _same_space(a, b)
+        return a.new(z3.Or(a.nonzero_term(), b.nonzero_term()), "bool")
+
+    def isin(self, arr, test, invert=False, **k):
+        if not isinstance(arr, VArr):
+            raise Unsupported("np.isin on non-array")
+        t = arr.term
+        if z3.is_bool(t):
+            t = z3.If(t, z3.IntVal(1), z3.IntVal(0))
+        if isinstance(test, SymSet):
+            m = test.member(t)
+        elif isinstance(test, (list, tuple, set)):
+            items = [to_term(x) for x in test]
+            m = z3.Or(*[t == x for x in items]) if items else z3.BoolVal(False)
+        elif isinstance(test, (int, Sym)):
+            m = t == to_term(test)
+        else:
+            raise Unsupported(f"np.isin with {type(test).__name__}")
+        if isinstance(invert, Sym):
+            raise Unsupported("symbolic invert flag")
+        return arr.new(z3.Not(m) if invert else m, "bool")
+
+    def sum(self, v, *a, **k):
+        if isinstance(v, VArr):
+            return v.sum(*a, **k)
+        return _agg_list(self, "sum", v, a, k)
+
+    def unique(self, v, **k):
+        if k:
+            raise Unsupported("np.unique with options")
+        return np_unique(self.eng, v)
+
+    def ones(self, shape, dtype=None):
+        sp = Space(ndim=len(shape) if isinstance(shape, tuple) else 1)
+        dt = _dtype_name(dtype) if dtype is not None else "float64"
+        n = 1
+        for d in (shape if isinstance(shape, tuple) else (shape,)):
+            n = n * d
+        self.eng.assume(wrap(sp.size == to_term(n)))
+        return VArr(z3.RealVal(1) if dt.startswith("float") else z3.IntVal(1), dt, sp)
+
+    def zeros(self, shape, dtype=None):
+        sp = Space(ndim=len(shape) if isinstance(shape, tuple) else 1)
+        dt = _dtype_name(dtype) if dtype is not None else "float64"
+        return VArr(z3.RealVal(0) if dt.startswith("float") else z3.IntVal(0), dt, sp)
+
+
+def _agg_list(self, name, v, a, k):
+    eng = self.eng
+    if isinstance(v, (list, tuple)) and len(v) == 0:
+        if name in ("min", "max"):
+            raise PyRaise(PyExc(ValueError, ("zero-size array to reduction operation",)))
+        if name == "sum":
+            return np_scalar(0, "float64")
+        eng.event("np-empty-mean")
+        return float("nan")
+    fn = name
+    if name == "std":
+        ddof = k.get("ddof", 0)
+        if ddof == 0:
+            fn = "pstd"
+        elif ddof == 1:
+            fn = "sstd"
+        else:
+            raise Unsupported("np.std ddof")
+    elif k or a:
+        if not (name in ("average", "mean") and not a and set(k) <= {"axis"} and k.get("axis") is None):
+            raise Unsupported(f"np.{name} with extra arguments")
+    if name == "mean":
+        fn = "average"
+    arr, n = seq_array(eng, v)
+    if isinstance(v, (SymSeq, SymList)):
+        if not eng.truth(wrap(n > 0)):
             if name in ("min", "max"):
                 raise PyRaise(PyExc(ValueError, ("zero-size array to reduction operation",)))
             if name == "sum":
                 return np_scalar(0, "float64")
             eng.event("np-empty-mean")
             return float("nan")
-        fn = name
-        if name == "std":
-            ddof = k.get("ddof", 0)
-            if ddof == 0:
-                fn = "pstd"
-            elif ddof == 1:
-                fn = "sstd"
-            else:
-                raise Unsupported("np.std ddof")
-        elif k or a:
-            if name == "average" and not a and set(k) <= {"axis"} and k.get("axis") is None:
-                pass
-            else:
-                raise Unsupported(f"np.{name} with extra arguments")
-        if name == "mean":
-            fn = "average"
-        arr, n = seq_array(eng, v)
-        if isinstance(v, (SymSeq, SymList)):
-            if not eng.truth(wrap(n > 0)):
-                if name in ("min", "max"):
-                    raise PyRaise(PyExc(ValueError, ("zero-size array to reduction operation",)))
-                if name == "sum":
-                    return np_scalar(0, "float64")
-                eng.event("np-empty-mean")
-                return float("nan")
-        return SymReal(AGG[fn](arr, n), np=True)
+    return SymReal(AGG[fn](arr, n), True, "float64")
+
+
+def _mk_agg(name):
+    def f(self, v, *a, **k):
+        if isinstance(v, VArr):
+            return getattr(v, name)(*a, **k)
+        return _agg_list(self, name, v, a, k)
     return f
 
 
-for _nm in ("average", "std", "sum", "min", "max", "mean"):
-    setattr(NpModule, _nm, _agg(_nm))
+for _nm in ("average", "std", "min", "max", "mean"):
+    setattr(NpModule, _nm, _mk_agg(_nm))
+
+
+def np_unique(eng, v):
+    """np.unique: the strictly increasing sequence of the attained values (trusted contract)."""
+    if isinstance(v, VSel):
+        arr, cond = v.arr, v.cond
+    elif isinstance(v, VArr):
+        arr, cond = v, z3.BoolVal(True)
+    else:
+        raise Unsupported("np.unique of a non-array")
+    sp = arr.space
+    tt = arr.term
+    if z3.is_bool(tt):
+        tt = z3.If(tt, z3.IntVal(1), z3.IntVal(0))
+    srt = tt.sort()
+    eng.fresh_n += 1
+    k = eng.fresh_n
+    u = z3.Function(f"uniq!{k}", I_, srt)
+    wit = z3.Function(f"uniq_wit!{k}", I_, Vox)
+    idx = z3.Function(f"uniq_idx!{k}", srt, I_)
+    n = z3.Int(f"uniq_n!{k}")
+    i, j = z3.Int(f"ui!{k}"), z3.Int(f"uj!{k}")
+    v_ = z3.Const(f"uv!{k}", Vox)
+    at = lambda t, q: z3.substitute(t, (sp.x, q))
+    eng.assume(z3.And(
+        n >= 0,
+        z3.ForAll([i, j], z3.Implies(z3.And(0 <= i, i < j, j < n), u(i) < u(j)), patterns=[z3.MultiPattern(u(i), u(j))]),
+        z3.ForAll([i], z3.Implies(z3.And(0 <= i, i < n), z3.And(at(cond, wit(i)), at(tt, wit(i)) == u(i))), patterns=[u(i)]),
+        z3.ForAll([v_], z3.Implies(at(cond, v_), z3.And(0 <= idx(at(tt, v_)), idx(at(tt, v_)) < n, u(idx(at(tt, v_))) == at(tt, v_)))),
+    ), why="np.unique")
+    out = SymSeq(wrap(n), lambda q: wrap(u(q), True, arr.dtype_name), name=f"unique!{k}")
+    out.unique_of = (arr, cond, u, wit, idx, n)
+    return out
+
+
+class _NDArrayType:
+    def pyvc_isinstance(self, v):
+        return isinstance(v, VArr)
+
+
+_SKEL = {}
+
+
+def _skeleton_model(kind):
+    """skimage skeletonize / skeletonize_3d: an uninterpreted function of the input mask (assumed: skimage)."""
+    def f(arr, *a, **k):
+        if not isinstance(arr, VArr):
+            raise Unsupported("skeletonize of non-array")
+        key = (kind, arr.space.name, arr.nonzero_term().sexpr())
+        if key not in _SKEL:
+            _SKEL[key] = z3.Function(f"{kind}!{len(_SKEL)}", Vox, B_)
+        cur().event("skeleton", kind)
+        out = VArr(_SKEL[key](arr.space.x), "bool", arr.space)
+        out.skeleton_of = (kind, arr)
+        return out
+    return f
+
+
+def install(eng):
+    np = NpModule(eng)
+    eng.models["numpy"] = np
+    eng.np = np
+    eng.models["skimage.morphology.skeletonize!obj"] = _skeleton_model("skeletonize")
+    eng.models["skimage.morphology.skeletonize_3d!obj"] = _skeleton_model("skeletonize_3d")
+    return np
